@@ -4,6 +4,7 @@ CONSTANTS
     ImplicitDirMode755 = TRUE
     LinksCountOnSource = TRUE
     SymlinkSizeFromTarget = TRUE
+    SpecialBitsIndependent = TRUE
     MkdevSplit = TRUE
     MemoOnlyHidesAbsent = TRUE
     AttrOpsEverywhere = FALSE
